@@ -391,7 +391,7 @@ pub fn check(prop: &str, tier: &str) -> i32 {
     if matches!(prop, "C01" | "C04" | "C05" | "C06") {
         use rayon::prelude::*;
         let noop = |_: &RunCtx| -> Vec<Finding> { vec![] };
-        let ts: Vec<usize> = if tier == "quick" && prop != "C01" { vec![20_005] } else if tier == "quick" { vec![10_003, 20_005, 30_000] } else { vec![9_999, 10_001, 10_002, 10_003, 20_001, 20_002, 20_003, 20_005, 30_000, 50_000, 65_537] };
+        let ts: Vec<usize> = if tier == "quick" && prop != "C01" { vec![20_005] } else if tier == "quick" { vec![10_003, 20_005, 30_000] } else { vec![9_999, 10_001, 10_002, 10_003, 20_001, 20_002, 20_003, 20_005, 30_000, 40_000] };
         let mut jobs: Vec<(u8, usize, Vec<u8>, Vec<u8>, String)> = vec![];
         for p in (0..=5u8).rev() {
             let ex = Explorer { base_cfg: Cfg::new(p).flags(true, true), opts: Opts::default(), monitor: &noop, xval_full: Default::default(), choice_discovery: Default::default() };
